@@ -18,6 +18,8 @@ pub enum Sched {
     LenMinus1,
     /// `Interrupted` before every successful call
     InterruptFirst,
+    /// one byte per call, an interruption before every byte
+    OneByteIntr,
     /// random split points and interruptions
     Random(u64),
 }
@@ -29,6 +31,7 @@ impl Sched {
             "one" => Sched::OneByte,
             "lenm1" => Sched::LenMinus1,
             "intr" => Sched::InterruptFirst,
+            "oneintr" => Sched::OneByteIntr,
             x if x.starts_with("rand") => Sched::Random(x[4..].parse().unwrap_or(1)),
             _ => panic!("unknown schedule {}", s),
         }
@@ -90,6 +93,17 @@ pub fn reset(read: Sched, write: Sched, fault: Option<Fault>) {
         p.write = write;
         p.fault = fault;
     })
+}
+
+thread_local! {
+    /// absolute seeks on instrumented sources (= block loads), for the per-call bound of C16
+    pub static BLOCK_LOADS: std::cell::Cell<u64> = std::cell::Cell::new(0);
+}
+pub fn note_block_load() {
+    BLOCK_LOADS.with(|c| c.set(c.get() + 1));
+}
+pub fn block_loads() -> u64 {
+    BLOCK_LOADS.with(|c| c.get())
 }
 
 pub fn fired() -> bool {
@@ -154,6 +168,15 @@ pub fn plan(is_read: bool, len: usize) -> Result<usize, io::Error> {
                 }
                 p.pending_intr = true;
                 len
+            }
+            Sched::OneByteIntr => {
+                if p.pending_intr {
+                    p.pending_intr = false;
+                    p.interrupts += 1;
+                    return Err(io::Error::new(io::ErrorKind::Interrupted, "scheduled interruption"));
+                }
+                p.pending_intr = true;
+                1
             }
             Sched::Random(_) => {
                 if p.rng.gen_ratio(1, 5) {
